@@ -117,7 +117,7 @@ MESSAGES = ["boom", "", "two\nlines", "trailing newline\n", "Ünïcödé ✓ mes
             "The \"--</error>\" option does not exist.", "<error>already styled</error>", "tab\there", "escaped \\</info> closing tag"]
 
 TYPES = ["ValueError", "KeyError", "RuntimeError", "OSError", "AssertionError", "UnicodeDecodeError",
-         "Foreign", "WithIntCode", "WithStrCode", "StrRaises", "CliKitLike", "NoSuchOption", "CannotParse",
+         "Foreign", "WithIntCode", "WithStrCode", "WithZeroCode", "WithFalseCode", "WithHugeCode", "StrRaises", "CliKitLike", "NoSuchOption", "CannotParse",
          "CannotResolve", "TypeError", "ZeroDivisionError", "LookupError", "StopIteration", "Exception"]
 
 
@@ -136,6 +136,18 @@ class WithIntCode(Exception):
 
 class WithStrCode(Exception):
     code = "E42"
+
+
+class WithZeroCode(Exception):
+    code = 0
+
+
+class WithFalseCode(Exception):
+    code = False
+
+
+class WithHugeCode(Exception):
+    code = 100000
 
 
 class Sub(ValueError):
@@ -163,6 +175,8 @@ def make_exception(spec):
         e = WithIntCode(m)
     elif t == "WithStrCode":
         e = WithStrCode(m)
+    elif t in ("WithZeroCode", "WithFalseCode", "WithHugeCode"):
+        e = globals()[t](m)
     elif t == "StrRaises":
         e = Sub(m)
     elif t == "CliKitLike":
